@@ -119,6 +119,9 @@ class Fault:
         self.detail = detail
         self.out_ext = out_ext        # compression suffix of the output files
         self.only_defect = None       # set when the file has exactly one, named, kind of defect
+        self.extra_opts = []          # further options of the run (and of the run that yields the expected output)
+        self.force_buf = None         # buffer size for which the fault position was chosen
+        self.cmd = None               # base command when it must differ from the default one
 
 
 def wf_prefix_fastq(text):
@@ -263,6 +266,26 @@ def make_faults(ctx, rng, thorough):
     b = bytearray(gzip.compress(fastx.format_fastq([(nm.replace(" c", " d"), sq, ql) for nm, sq, ql in big]).encode(), 1, mtime=0))
     b[len(b) - 8 + rng.randrange(4)] ^= 1 << rng.randrange(8)
     yield Fault("bitflip-big-gz-R2@crc", {"in1.fq": tb.encode(), "in2.fq.gz": bytes(b)}, "two", True, None, detail="paired, CRC of the R2 gzip stream damaged")
+    # (c*) the '@' of a header turned into '>' exactly where a chunk of the multi-core reader starts (a chunk taken on its own
+    # would look like FASTA); with options that could make the damage invisible in the output (length filter, untrimmed filter)
+    import io as _io
+    import dnaio as _dnaio
+    for bs in (8000, 20000):
+        starts, pos = [], 0
+        for chunk in _dnaio.read_chunks(_io.BytesIO(tb.encode()), bs):
+            starts.append(pos)
+            pos += len(chunk)
+        for ci in sorted(set([1, len(starts) // 2, len(starts) - 1]) & set(range(1, len(starts)))):
+            st = starts[ci]
+            if tb[st] != "@":
+                continue
+            text = tb[:st] + ">" + tb[st + 1:]
+            extra = rng.choice([["-M", "30"], ["--discard-untrimmed"], ["-M", "30"]])
+            f = Fault(f"corrupt-big-at_to_gt@chunk{ci}of{len(starts)}", {"in1.fq": text.encode()}, None, True, {"in1.fq": tb[:st]},
+                      detail=f"header '@' replaced by '>' at the start of chunk {ci} for buffer size {bs}, options {extra}")
+            f.extra_opts, f.force_buf = extra, bs
+            f.cmd = ["-a", AD]        # nothing that needs qualities: a record parsed without them would stop the run by itself
+            yield f
     # (c+) a corrupted record early in a multi-chunk file, with outputs that go through an external compressor
     for idx in (5, len(big) // 2):
         for kind in ("qual_short", "no_plus"):
@@ -313,7 +336,7 @@ def expected_output(ctx, d, fault, cmd, cache):
     """Output of the real tool (one core, no perturbation) on the longest well-formed prefix."""
     if fault.wf_prefix is None:
         return None
-    key = (tuple(sorted(fault.wf_prefix.items())), fault.paired_mode, fault.fmt)
+    key = (tuple(sorted(fault.wf_prefix.items())), fault.paired_mode, fault.fmt, tuple(fault.extra_opts), tuple(cmd))
     if key in cache:
         return cache[key]
     e = os.path.join(d, "expect")
@@ -328,7 +351,7 @@ def expected_output(ctx, d, fault, cmd, cache):
         with open(os.path.join(e, plain), "w") as f:
             f.write(text)
         names.append(plain)
-    argv = list(cmd) + io_args(fault.paired_mode, fault.fmt) + sorted(names)
+    argv = list(cmd) + list(fault.extra_opts) + io_args(fault.paired_mode, fault.fmt) + sorted(names)
     r = climon.run(e, argv, tag="exp", trace=False)
     if r.rc != 0:
         cache[key] = ("failed", r.err[-200:])
@@ -361,20 +384,20 @@ def records_of(text, fmt):
 
 
 def run_fault(ctx, d, fault, cores, bufsize, perturb, cache, state):
-    cmd = CMD if fault.fmt == "fastq" else CMD_FA
+    cmd = fault.cmd or (CMD if fault.fmt == "fastq" else CMD_FA)
     w = os.path.join(d, "w")
     shutil.rmtree(w, ignore_errors=True)
     os.makedirs(w)
     for name, blob in fault.files.items():
         with open(os.path.join(w, name), "wb") as f:
             f.write(blob)
-    argv = list(cmd)
+    argv = list(cmd) + list(fault.extra_opts)
     if cores > 1:
         argv += ["-j", str(cores), "--buffer-size", str(bufsize)]
     argv += io_args(fault.paired_mode, fault.fmt, fault.out_ext) + sorted(fault.files)
     run = climon.run(w, argv, tag="run", trace=cores > 1, perturb=perturb, trace_reads=False, timeout=45)
     case = dict(cli=True, argv=argv, files={k: v.decode("latin-1") for k, v in fault.files.items()}, fault=fault.label, cores=cores,
-                bufsize=bufsize, perturb=perturb)
+                bufsize=bufsize, perturb=perturb, extra_opts=list(fault.extra_opts), cmd=fault.cmd)
     ctx.case((fault.label, tuple(sorted(fault.files.items())), cores, bufsize) if fault.malformed else None)
     ctx.count("runs")
     ctx.count("fault_class:" + fault.label.split("@")[0])
@@ -474,7 +497,9 @@ def run_shard(ctx):
             bufs = [max(400, size // 4), max(400, size // 2), 100000]
             if fault.label.startswith(("truncate-big", "corrupt-big")):
                 bufs = [20000, 8000, 60000]
-            if thorough:
+            if fault.force_buf:
+                combos += [(2, fault.force_buf, None), (3, fault.force_buf, 1)]
+            elif thorough:
                 combos += [(2, bufs[0], 1), (3, bufs[1], 2), (2, bufs[2], None)]
             else:
                 combos += [(rng.choice([2, 3]), rng.choice(bufs), rng.choice([None, 1, 2]))]
@@ -506,4 +531,5 @@ def replay(ctx, case):
         f = Fault(case["fault"], files, None, not wf, {"in1.fq": pref})
     else:
         f = Fault(case["fault"], files, mode, "truncate-fasta" not in case["fault"] and case["fault"] != "gzip-empty", None, fmt=fmt)
+    f.extra_opts, f.cmd = case.get("extra_opts") or [], case.get("cmd")
     run_fault(ctx, d, f, case["cores"], case["bufsize"], case["perturb"], {}, dict(timeouts=0))
